@@ -339,7 +339,7 @@ def _c20_hook(ctx):
         d = os.path.join(work, f"C20-{k}")
         os.makedirs(d, exist_ok=True)
         p = subprocess.run([os.path.join(build, bins[k]), "-prop", "C20", "-tier", ctx["tier"], "-seed", str(ctx["seed"]), "-out", d],
-                           env=dict(goenv, VERIF_DRIVER=ctx.get("driver", "")), capture_output=True, text=True)
+                           env=dict(goenv, VERIF_DRIVER=ctx.get("driver", ""), VERIF_REPO_SRC=ctx.get("repo", "/repo")), capture_output=True, text=True)
         if p.returncode != 0:
             return {"broken": [f"transcript program failed in configuration {name}: {p.stderr[-400:]}"], "coverage": {}}
         got = open(os.path.join(d, "impl.txt")).read().split("\n")
